@@ -343,6 +343,8 @@ def seq_task(p, cfg, rec):
     for k, kind in enumerate(seq):
         if kind.isdigit():
             with quiet():
+                for w_ in ins.values():                       # all-ones inputs: enables active, registers move off their reset values
+                    w_.put((1 << w_.getWidth()) - 1)
                 s.getSimulator().clk(int(kind))
             continue
         g0 = graph_snapshot(s)
@@ -376,6 +378,8 @@ def seq_task(p, cfg, rec):
         for kind in seq:
             if kind.isdigit():
                 with quiet():
+                    for w_ in ins2.values():
+                        w_.put((1 << w_.getWidth()) - 1)
                     s2.getSimulator().clk(int(kind))
             else:
                 try:
@@ -422,7 +426,7 @@ def ancestor_task(p, cfg, rec):
 def tasks_for(tier):
     quick = tier == 'quick'
     seqs = [['H', 'H'], ['h', 'h'], ['H', 'M', 'H'], ['H', 'O', 'H'], ['S', 'H'], ['H', '2', 'H'], ['M', 'H', 'h'],
-            ['c', 'h'], ['p', 'h'], ['m', 'h'], ['h', 'p', 'h'], ['h', 'c', 'S'], ['L', 'h'], ['L', 'c', 'L', 'm'], ['L', 'p', 'H']]
+            ['c', 'h'], ['p', 'h'], ['m', 'h'], ['h', 'p', 'h'], ['h', 'c', 'S'], ['L', 'h'], ['L', 'c', 'L', 'm'], ['L', 'p', 'H'], ['3', 'H'], ['h', '1', 'h', '2', 'h']]
     if not quick:
         seqs += [['h', 'O', 'h'], ['H', '1', 'h', '3', 'H'], ['S', 'S'], ['O', 'H', 'O', 'h'], ['M', 'M', 'H'], ['H', 'S', 'h']]
     t = []
